@@ -37,4 +37,11 @@ def b3():
     return "b3-fragments-sparse-300-entries", D(ents, tag="root"), {}
 
 
-ALL = [b0, b1, b2, b3]
+def b4():
+    """an extended directory with a directory index (3 headers, 2 index entries) next to a basic one"""
+    six = [(b"n%d" % i, F(b"file %d" % i, tag="n%d" % i), None) for i in range(6)]
+    ents = [(b"idx", D(six, ext=True, index_every=2, tag="idx"), None), (b"plain", D([(b"p", Node("fifo", 0o600, tag="p"), None)], tag="plain"), None)]
+    return "b4-directory-index", D(ents, tag="root"), {}
+
+
+ALL = [b0, b1, b2, b4, b3]
